@@ -309,6 +309,41 @@ impl Default for PVal {
     }
 }
 
+/// bulky plain value (136-byte entries): size-dependent heuristics of the table
+#[derive(Clone, Copy)]
+pub struct BVal(pub u32, pub [u64; 15]);
+impl PartialEq for BVal {
+    fn eq(&self, o: &Self) -> bool {
+        self.0 == o.0
+    }
+}
+impl ValT for BVal {
+    const TRACKED: bool = false;
+    fn make(tok: u32) -> Self {
+        BVal(tok, [tok as u64; 15])
+    }
+    fn tok(&self) -> u32 {
+        self.0
+    }
+    fn set_tok(&mut self, tok: u32) {
+        self.0 = tok
+    }
+    fn serial(&self) -> Option<u32> {
+        None
+    }
+}
+impl Default for BVal {
+    fn default() -> Self {
+        env::tick(Class::Default);
+        BVal::make(DEFAULT_TOK)
+    }
+}
+impl std::fmt::Debug for BVal {
+    fn fmt(&self, f: &mut std::fmt::Formatter<'_>) -> std::fmt::Result {
+        write!(f, "V#{}", self.0)
+    }
+}
+
 // ---------------------------------------------------------------------------
 // Plan hasher
 // ---------------------------------------------------------------------------
